@@ -397,7 +397,9 @@ def lstep (own : String) (s : LState) : LLabel → Option LState
         | [] => none
         | v' :: rest =>
           if v' != v then none                               -- the worker takes the oldest event
-          else if !e.consistent && rest.isEmpty then none    -- inconsistent only while another one is queued
+          -- inconsistent only while another event is queued — or with handler-supplied fns (a carried one makes the
+          -- patch non-empty from the start: `patch_initially_empty`)
+          else if !e.consistent && rest.isEmpty && !e.userFns then none
           else (step own s.base l).map fun b =>
             { base := b, queue := rest, sleeping := false,
               cycDelays := (decision (inputs own v s.base e)).delays, cycMerge := e.merge, cycChanges := false,
